@@ -245,9 +245,12 @@ class Network(MutableMapping):
         callbacks = self.subscribers.get(can_id)
         if callbacks is not None:
             # Iterate over a snapshot: a callback or another thread may
-            # subscribe or unsubscribe while the message is dispatched
+            # subscribe or unsubscribe while the message is dispatched.
+            # A callback that has been unsubscribed meanwhile is not called
+            # any more (its owner may be gone), a new one not yet
             for callback in tuple(callbacks):
-                callback(can_id, data, timestamp)
+                if callback in self.subscribers.get(can_id, ()):
+                    callback(can_id, data, timestamp)
         self.scanner.on_message_received(can_id)
 
     def check(self) -> None:
